@@ -22,8 +22,9 @@
   NOT covered, and why.  `load_json(load_order=True)`: on main only for well-formed files, under
   the model-artefact hypothesis `PredNodes`, and without "held references keep their meaning"
   (`loadJson_true_spec`).  `dd.dddmp.load`: it builds a NEW manager (a start state, not a step);
-  `C16_load_spec` concludes `Inv` only (no `OrderOK` / `RefExact`), and DD.Dddmp cannot be imported
-  next to DD.Parse (both define `DD.Tok`).
+  `C16_load_spec` concludes `Inv` only (no `OrderOK` / `RefExact`; `C16_load_good` and
+  `C16_then_every_history` give the good state and the histories that start there — the tokens of
+  DD.Dddmp are `DD.DddmpTok`, so DD.Dddmp imports next to DD.Parse, see DDProps/All.lean).
 -/
 import DDProofs.Reach4
 import DDProofs.Reach4Start
